@@ -85,6 +85,7 @@ static void ti_alloc(timg *t, int bpp, int W, int H, int bg, int acc)
 }
 static inline uint8_t *ti_row(timg *t, int y) { return t->bits + (size_t)t->stride * (size_t)y; }
 static void ti_scramble(timg *t) { for (size_t i = 0; i < t->size; i++) t->alloc[i] ^= SCR; }
+static int c10_single_write;     /* acc == 3: which single callback is installed (0: read_func only - the only combination used, for sources) */
 static void ti_create(timg *t, pixman_format_code_t code, const pixman_indexed_t *pal)
 {
     if (t->acc) ti_scramble(t);
@@ -101,7 +102,8 @@ static void ti_create(timg *t, pixman_format_code_t code, const pixman_indexed_t
         pixman_image_unref(scratch);
         ti_scramble(t);
     }
-    if (t->acc) pixman_image_set_accessors(t->im, acc_read, acc_write);
+    if (t->acc == 3) pixman_image_set_accessors(t->im, c10_single_write ? NULL : acc_read, c10_single_write ? acc_write : NULL);      /* one callback only: legal, and still an image with accessors */
+    else if (t->acc) pixman_image_set_accessors(t->im, acc_read, acc_write);
 }
 static void ti_release(timg *t)     /* drop the pixman image, bring the store back to the logical view */
 {
@@ -342,6 +344,12 @@ static void lay_case(uint64_t idx, void *vctx)
 
     uint32_t *vals; int N = gen_vals(&L, c->vm, c->fullbits, block, &vals);
     int bpp = L.bpp, mode = V->mode, acc = V->acc;
+    if (acc == 3) {
+        /* only a source can live with one callback: the library may read a destination under any operator (the float pipeline does even
+         * for SRC), so a destination without read_func is the caller's error, not an input of the property */
+        c10_single_write = 0;
+        if (V->route == R_STORE8 || V->route == R_STOREF) { free(vals); return; }
+    }
     uint64_t outcome = 0;
     uint64_t nontriv = 0;
     for (int i = 0; i < N; i++) nontriv += !trivial_value(&L, vals[i]);
@@ -986,7 +994,7 @@ static int add_variants(variant_t *v, int routes_mask, int modes_mask, int acc_m
     int n = 0;
     for (int r = 0; r < NROUTES; r++) if (routes_mask & (1 << r))
         for (int m = 0; m < NMODES; m++) if (modes_mask & (1 << m))
-            for (int a = 0; a < 3; a++) if (acc_mask & (1 << (a ? 1 : 0))) { v[n].route = r; v[n].mode = m; v[n].acc = a; n++; }   /* a = 2: accessors installed after a first plain use */
+            for (int a = 0; a < 4; a++) if (acc_mask & (1 << (a ? 1 : 0))) { if (a == 3 && r == R_SELF) continue; v[n].route = r; v[n].mode = m; v[n].acc = a; n++; }   /* a = 2: accessors installed after a first plain use; a = 3: one callback only */
     return n;
 }
 
